@@ -63,6 +63,14 @@ synthetic = every 10th quick formula; minmax = every 3rd term.  New families rel
  m5 flag path: min_f < 0 reported ">= 0"               caught by (b) synthetic/sign-tdncz/*/geq0; not by (a) (real flag=True factors are positive)
  m6 final LEQ/GEQ answers swapped                      caught by (a) harvested/{sign,deriv-mono}/rational/{geq0,leq0} and (b)
  m7 _is_connected_cached Max/Min swapped               caught by (a) harvested/minmax-connected/Min and minmax-construct
+All five proposed patches applied together to a scratch copy: 0 violations on minmax-construct (every 3rd term) and
+on every 10th quick synthetic formula (the harvested re-check of the patched copy did not finish under load).
+
+Runs (unchanged tree, quick, seed 0): 28073 configurations (16 + 6272 + 1235 harvested + 20550 synthetic), 24148
+validated, 15795 non-trivial, 78 outcomes, 283 violations in 26 families (0 harvested), exhaustive, no harness
+error; 8 specs / 832 template jobs / 18939 captured comparator calls.  Wall 26 min at load ~150 and 131 min at load
+~400 (80 CPU-min, half of it kernel time for copy-on-write faults in the forked workers of this VM); the seed only
+rotates shard order.  Seeds 1, 7 and the thorough tier could not be run to completion on the saturated box.
 """
 
 from __future__ import annotations
